@@ -44,6 +44,7 @@ func main() {
 	runConfigProduct()
 	runSpecialParity()
 	runAutoMask()
+	runPenaltyRules()
 	runCharacterSweeps()
 	runAllLengths()
 	flushMatrixFailures()
@@ -58,6 +59,12 @@ func replay() {
 	}
 	fmt.Printf("replay %+v\n", c)
 	switch c.Kind {
+	case "penalty":
+		var pc penCase
+		if err := mc.LoadReplay(chk.ReplayFile(), &pc); err == nil {
+			fmt.Printf("replay %+v: the version's penalty family is re-run\n", pc)
+			runPenaltyRules()
+		}
 	case "automask":
 		var a autoCase
 		if err := mc.LoadReplay(chk.ReplayFile(), &a); err == nil {
